@@ -30,6 +30,8 @@ MODEL_SWITCHES = [
     ("MC_Conc6", "MC_Conc6_bug2.cfg", "LinOK", "interior split without the splitting mark"),
     ("YkEpoch", "MC_Epoch_bug.cfg", "SafeStrong", "F5: two-step enter"),
     ("YkLife", "MC_Life_bug.cfg", "ThreadsAliveWhileRunning", "F4: stop flags not cleared"),
+    ("MC_Iscan", "MC_Iscan_bug15.cfg", "IscanPhantomOK", "F15: cursor opened in the gap between two entries of one absent slice reports no border"),
+    ("MC_Iscan", "MC_Iscan_bug16.cfg", "IscanPhantomOK", "F16: end-of-border callback skipped when the cursor position equals the max sentinel"),
     ("MC_Tree", "MC_Tree_scan5_f2.cfg", "ScanOK", "F2: scan uses l_key with INF"),
     ("MC_Tree", "MC_Tree_scan5_f3.cfg", "PhantomOK", "F3: links-only border not recorded"),
 ]
